@@ -14,7 +14,7 @@ EXPLANATION = (
     'return); diff does not write the set. D1 role routing over six hops: '
     'diff().0 (modifications) reaches only fetch_docs + MultiSet and diff().1 (removals) only Del / MultiDel — through on_diff, '
     'get_keyspace_diff\'s struct fields, repair_members\' arguments, begin_keyspace_sync\'s parameters and the two application tasks (both '
-    'lists have the same type, so the compiler accepts any swap). NOT decided: "applying the difference leaves nothing further to fetch" '
+    'lists have the same type, so the compiler accepts any swap). A the actor applies every entry of a batch it is handed (C02\'s handler obligations re-evaluated: nothing is dropped between the gate and storage, the set is folded for exactly what storage wrote). NOT decided: "applying the difference leaves nothing further to fetch" '
     'and the symmetric-exchange statement (consequences over all reachable set pairs).')
 ASSUMPTIONS = ['derived Ord on HLCTimestamp (C04.T1)']
 
@@ -174,6 +174,30 @@ def nested_param_locals(facts, root_fn, param_local):
     return out
 
 
+DROPPERS = ('filter', 'filter_map', 'take', 'skip', 'step_by', 'take_while', 'skip_while', 'map_while')
+MUT_DROPS = re.compile(r'::(retain|retain_mut|truncate|drain|pop|remove|swap_remove|dedup|dedup_by|dedup_by_key|clear|split_off|drain_filter|extract_if)$')
+
+
+def lossy_steps(facts, body, flow, start_locals, upto_block=None):
+    """steps applied to a list (identified by the locals that hold / derive from it) that can drop entries:
+    iterator adaptors on a chain fed from it, and in-place mutations through a `&mut` of it"""
+    out = []
+    derived = flow.forward(list(start_locals), stop=[0])
+    for b, t in body.calls():
+        n = cname(t)
+        if not n:
+            continue
+        if n.startswith('core::iter::traits::iterator::Iterator::') and last_seg(n) in DROPPERS and op_local(t['args'][0]) in derived:
+            out.append((t['cs'], last_seg(n)))
+        if MUT_DROPS.search(n) and t['args']:
+            al = op_local(t['args'][0])
+            roots = referent_roots(body, al) if al is not None else set()
+            aty = body.local_ty(al) if al is not None else ''
+            if al is not None and (al in derived or roots & set(derived)) and ('Vec<' in aty or 'SmallVec<' in aty):
+                out.append((t['cs'], last_seg(n)))
+    return out
+
+
 def check_D1(ctx, facts, rule='C05.D1'):
     # (1) on_diff returns diff()'s tuple unpermuted
     od = [b for b in facts.bodies.values() if b.kind == 'coroutine' and b.name == EC + 'keyspace::actor::KeyspaceActor::on_diff::{closure#0}']
@@ -233,6 +257,10 @@ def check_D1(ctx, facts, rule='C05.D1'):
                     mb = flow.backward([op_local(fl['modified'])])
                     rb = flow.backward([op_local(fl['removed'])])
                     good = bool(part[0] & mb) and not (part[1] & mb) and bool(part[1] & rb) and not (part[0] & rb)
+        if sends:
+            lossy = lossy_steps(facts, b, flow, part[0] | part[1])
+            ctx.ob(rule, 'hop2|lossless', not lossy, site(b), 'the two lists are carried into KeyspaceDiff without dropping entries' if not lossy else
+                   'entries of the computed difference are dropped before they are stored in KeyspaceDiff (%s)' % lossy)
         ctx.ob(rule, 'hop2|get_keyspace_diff', good, site(b),
                'diff().0 -> KeyspaceDiff.modified, diff().1 -> KeyspaceDiff.removed' if good else
                'the pair returned by the actor is not stored as (modified, removed): removals are fetched as documents and modifications applied as deletes')
@@ -274,6 +302,17 @@ def check_D1(ctx, facts, rule='C05.D1'):
                     if cname(t) in (P + 'handle_removals', P + 'handle_modified') and any(op_local(a) in ls for a in t['args']):
                         tasks.add(last_seg(cname(t)))
         reach[fld] = tasks
+    lossy4 = []
+    for fld in ('removed', 'modified'):
+        plist = [k for k, v in pnames.items() if v == fld and k <= bks.argc]
+        if plist:
+            for body, ls in nested_param_locals(facts, bks, plist[0]):
+                for line, what in lossy_steps(facts, body, Flow(body), ls):
+                    lossy4.append((fld, what, line))
+    ctx.ob(rule, 'hop4|lossless', not lossy4, site(bks),
+           'both lists reach their application task without an entry being dropped' if not lossy4 else
+           'entries of the difference are dropped inside begin_keyspace_sync before they reach their task: %s — the peer\'s operations for those keys are '
+           'never applied although the exchange is recorded as complete' % ['%s: %s (line %s)' % x for x in lossy4])
     good = reach['removed'] == {'handle_removals'} and reach['modified'] == {'handle_modified'}
     ctx.ob(rule, 'hop4|begin_keyspace_sync', good, site(bks),
            'parameter removed -> handle_removals only, parameter modified -> handle_modified only' if good else
@@ -311,3 +350,14 @@ def check(ctx):
     facts = ctx.facts('prod')
     check_D0(ctx, facts)
     check_D1(ctx, facts)
+    # A: the keyspace actor applies what it is handed (keyspace/actor.rs is one of C05's anchors): the C02 handler
+    #    obligations (write-then-fold, record = what storage gets, every region folds) re-evaluated under C05.A
+    import c02
+    n0 = len(ctx.obs)
+    c02.check(ctx)
+    for o in ctx.obs[n0:]:
+        if o.rule.startswith('C02.G'):
+            o.ok = True          # the gate mismatch is reported under C02 / C04 only (one defect, one place)
+            o.detail = '(gate agreement is evaluated and reported under C02.G / C04.G)'
+            o.nontrivial = False
+        o.rule = o.rule.replace('C02.', 'C05.A-')
